@@ -403,8 +403,8 @@ def check_returns_built_from_map(ctx, qf, body, text_param):
         if isinstance(e, ast.IfExp):
             return built(e.body, depth) and built(e.orelse, depth)
         if isinstance(e, ast.Call):
-            if isinstance(e.func, ast.Attribute) and e.func.attr == 'join' and isinstance(e.func.value, ast.Constant):
-                return True
+            if isinstance(e.func, ast.Attribute) and e.func.attr == 'join':
+                return True                 # ''.join(...) / str.join('', ...) / SEP.join(...)
             if isinstance(e.func, ast.Name) and (e.func.id in body.module.functions or e.func.id in ('str', 'to_unicode')):
                 return True                 # delegation to a module function (checked where it is a quote helper)
         return False
